@@ -490,6 +490,62 @@ func (b *TB) Eq(x, y *Term) *Term {
 	return b.mk(&Term{Op: OpEq, W: 0, Args: []*Term{x, y}})
 }
 
+// lift2 applies f to every pair of leaves of two const-leaf trees (small
+// domains only), producing again a tree / Boolean structure.
+func (b *TB) lift2(x, y *Term, f func(a, c uint64) *Term) *Term {
+	lx, ly := b.leaves(x), b.leaves(y)
+	if len(lx)*len(ly) > 144 {
+		return nil
+	}
+	var res *Term
+	for i := len(lx) - 1; i >= 0; i-- {
+		var inner *Term
+		for j := len(ly) - 1; j >= 0; j-- {
+			v := f(lx[i], ly[j])
+			if inner == nil {
+				inner = v
+			} else {
+				inner = b.Ite(b.eqConstPush(y, b.BV(y.W, ly[j])), v, inner)
+			}
+		}
+		if res == nil {
+			res = inner
+		} else {
+			res = b.Ite(b.eqConstPush(x, b.BV(x.W, lx[i])), inner, res)
+		}
+	}
+	return res
+}
+
+// ClampSigned maps every leaf of a const-leaf tree that lies outside
+// [lo,hi] (signed) to hi and returns the condition under which that happens.
+func (b *TB) ClampSigned(t *Term, lo, hi int64) (*Term, *Term) {
+	if !b.constLeafTree(t) {
+		return t, b.False
+	}
+	out := b.False
+	need := false
+	for _, v := range b.leaves(t) {
+		s := sext64(v, t.W)
+		if s < lo || s > hi {
+			need = true
+			out = b.Or(out, b.eqConstPush(t, b.BV(t.W, v)))
+		}
+	}
+	if !need {
+		return t, b.False
+	}
+	w := t.W
+	r := b.pushOff(900, int(lo)*100003+int(hi), t, 0, func(v uint64) *Term {
+		s := sext64(v, w)
+		if s < lo || s > hi {
+			return b.BV(w, uint64(hi))
+		}
+		return b.BV(w, v)
+	})
+	return r, out
+}
+
 func (b *TB) Ne(x, y *Term) *Term { return b.Not(b.Eq(x, y)) }
 
 func sext64(v uint64, w int) int64 {
@@ -580,6 +636,22 @@ func (b *TB) binArith(op Op, x, y *Term) *Term {
 			}
 		}
 		return b.BV(w, r)
+	}
+	if !x.IsConst() && !y.IsConst() && b.constLeafTree(x) && b.constLeafTree(y) {
+		if r := b.lift2(x, y, func(a, c uint64) *Term { return b.binArith(op, b.BV(w, a), b.BV(w, c)) }); r != nil {
+			return r
+		}
+	}
+	if op != OpAdd && !(op == OpSub && y.IsConst()) {
+		// constant (op) tree: map over the leaves
+		if x.IsConst() && b.constLeafTree(y) {
+			c := x.Val
+			return b.pushOff(700+int(op), x.ID, y, 0, func(v uint64) *Term { return b.binArith(op, b.BV(w, c), b.BV(w, v)) })
+		}
+		if y.IsConst() && b.constLeafTree(x) {
+			c := y.Val
+			return b.pushOff(800+int(op), y.ID, x, 0, func(v uint64) *Term { return b.binArith(op, b.BV(w, v), b.BV(w, c)) })
+		}
 	}
 	switch op {
 	case OpAdd:
@@ -681,6 +753,11 @@ func (b *TB) cmp(op Op, x, y *Term) *Term {
 	}
 	if x == y {
 		return b.Bool(op == OpUle || op == OpSle)
+	}
+	if !x.IsConst() && !y.IsConst() && b.constLeafTree(x) && b.constLeafTree(y) {
+		if r := b.lift2(x, y, func(a, c uint64) *Term { return b.Bool(ev(a, c)) }); r != nil {
+			return r
+		}
 	}
 	if y.IsConst() && b.constLeafTree(x) {
 		c := y.Val
